@@ -24,42 +24,30 @@ theorem writeAt_mid (pre : Bytes) (m v : UInt8) (post : Bytes) (k : Nat) (hk : k
   subst hk
   rw [writeAt_lt _ _ _ (by simp), set_append_mid]
 
-theorem memcpyLoop_split (src : Bytes) (off : Nat) : ∀ (n i : Nat) (pre mid post : Bytes),
-    i + n ≤ src.length → pre.length = off + i → mid.length = n →
-    memcpyLoop src off n i (pre ++ mid ++ post) = .val (pre ++ (src.drop i).take n ++ post) := by
-  intro n
-  induction n with
-  | zero =>
-    intro i pre mid post _ _ hm
-    have : mid = [] := List.eq_nil_of_length_eq_zero hm
-    simp [memcpyLoop, this]
+theorem copyInto_ok : ∀ (src : Bytes) (n : Nat) (dstTail : Bytes), n ≤ src.length → n ≤ dstTail.length →
+    copyInto src n dstTail = .val (src.take n ++ dstTail.drop n) := by
+  intro src n
+  induction n generalizing src with
+  | zero => intro dstTail _ _; cases src <;> simp [copyInto]
   | succ n ih =>
-    intro i pre mid post hs hp hm
-    have hi : i < src.length := by omega
-    cases mid with
-    | nil => simp at hm
-    | cons m mid' =>
-      simp only [memcpyLoop, readAt_lt src i hi, Out.bind_val]
-      have : pre ++ m :: mid' ++ post = pre ++ m :: (mid' ++ post) := by simp
-      rw [this, writeAt_mid pre m src[i] (mid' ++ post) (off + i) hp.symm]
-      simp only [Out.bind_val]
-      have h2 : pre ++ src[i] :: (mid' ++ post) = (pre ++ [src[i]]) ++ mid' ++ post := by simp
-      rw [h2, ih (i + 1) (pre ++ [src[i]]) mid' post (by omega) (by simp; omega) (by simpa using hm)]
-      have h3 : (src.drop i).take (n + 1) = src[i] :: (src.drop (i + 1)).take n := by
-        rw [List.drop_eq_getElem_cons hi, List.take_succ_cons]
-      rw [h3]; simp
+    intro dstTail hs hd
+    cases src with
+    | nil => simp at hs
+    | cons b src =>
+      cases dstTail with
+      | nil => simp at hd
+      | cons x t =>
+        simp only [copyInto]
+        rw [ih src t (by simpa using hs) (by simpa using hd)]
+        simp
 
 /-- memcpy into the not yet written part of a buffer whose first `w.length` bytes are `w` -/
 theorem memcpy_step (buf w src : Bytes) (n : Nat) (hs : n ≤ src.length) (hd : w.length + n ≤ buf.length) :
     memcpyTo (w ++ buf.drop w.length) w.length src n
       = .val ((w ++ src.take n) ++ buf.drop ((w ++ src.take n).length)) := by
-  have hsplit : buf.drop w.length = (buf.drop w.length).take n ++ buf.drop (w.length + n) := by
-    conv => lhs; rw [← List.take_append_drop n (buf.drop w.length)]
-    simp [List.drop_drop]
   unfold memcpyTo
-  conv => lhs; rw [hsplit, ← List.append_assoc]
-  rw [memcpyLoop_split src w.length n 0 _ _ _ (by omega) (by simp) (by simp; omega)]
-  simp [Nat.min_eq_left hs]
+  rw [List.drop_left, copyInto_ok src n _ hs (by simp; omega)]
+  simp [Nat.min_eq_left hs, Nat.add_comm]
 
 theorem memcpy_first (buf src : Bytes) (n : Nat) (hs : n ≤ src.length) (hd : n ≤ buf.length) :
     memcpyTo buf 0 src n = .val (src.take n ++ buf.drop n) := by
@@ -195,32 +183,24 @@ theorem resolvePath_eq_spec (pm : Nat) (dir tl avail : Bytes) (len : Nat) (buf :
 
 /-! ### strcpy / cstr -/
 
-theorem strcpyLoop_ok : ∀ (s r pre mid post : Bytes) (i : Nat), (0 : UInt8) ∉ s → pre.length = i →
-    mid.length = s.length + 1 →
-    strcpyLoop (s ++ 0 :: r) i (pre ++ mid ++ post) = .val (pre ++ s ++ [0] ++ post) := by
+theorem strcpy_split : ∀ (s r dst : Bytes), (0 : UInt8) ∉ s → s.length < dst.length →
+    strcpy dst (s ++ 0 :: r) = .val (s ++ [0] ++ dst.drop (s.length + 1)) := by
   intro s
   induction s with
   | nil =>
-    intro r pre mid post i _ hp hm
-    match mid, hm with
-    | [m], _ =>
-      simp only [List.nil_append, strcpyLoop]
-      have : pre ++ [m] ++ post = pre ++ m :: post := by simp
-      rw [this, writeAt_mid pre m 0 post i hp.symm]
-      simp
+    intro r dst _ hd
+    cases dst with
+    | nil => simp at hd
+    | cons x t => simp [strcpy]
   | cons a t ih =>
-    intro r pre mid post i h0 hp hm
+    intro r dst h0 hd
     have ha : a ≠ 0 := by intro h; subst h; simp at h0
     have ht : (0 : UInt8) ∉ t := by intro h; exact h0 (List.mem_cons_of_mem _ h)
-    cases mid with
-    | nil => simp at hm
-    | cons m mid' =>
-      simp only [List.cons_append, strcpyLoop]
-      have : pre ++ m :: mid' ++ post = pre ++ m :: (mid' ++ post) := by simp
-      rw [this, writeAt_mid pre m a (mid' ++ post) i hp.symm]
-      simp only [Out.bind_val, ha, if_false]
-      have h2 : pre ++ a :: (mid' ++ post) = (pre ++ [a]) ++ mid' ++ post := by simp
-      rw [h2, ih r (pre ++ [a]) mid' post (i + 1) ht (by simp [hp]) (by simpa using hm)]
+    cases dst with
+    | nil => simp at hd
+    | cons x d =>
+      simp only [List.cons_append, strcpy, ha, if_false]
+      rw [ih r d ht (by simpa using hd)]
       simp
 
 @[simp] theorem cstr_nil : cstr [] = [] := rfl
@@ -268,11 +248,8 @@ theorem cstr_length_le (b : Bytes) : (cstr b).length ≤ b.length := by
 theorem strcpy_ok (dst src : Bytes) (h0 : (0 : UInt8) ∈ src) (hfit : (cstr src).length < dst.length) :
     strcpy dst src = .val (cstr src ++ [0] ++ dst.drop ((cstr src).length + 1)) := by
   obtain ⟨r, hr⟩ := split_at_nul src h0
-  have hsplit : dst = [] ++ dst.take ((cstr src).length + 1) ++ dst.drop ((cstr src).length + 1) := by simp
-  unfold strcpy
-  conv => lhs; rw [hr, hsplit]
-  rw [strcpyLoop_ok (cstr src) r [] _ _ 0 (cstr_nul_free src) rfl (by simp; omega)]
-  simp
+  conv => lhs; rw [hr]
+  exact strcpy_split (cstr src) r dst (cstr_nul_free src) hfit
 
 theorem cstr_strcpy (s rest : Bytes) (h : (0 : UInt8) ∉ s) : cstr (s ++ [0] ++ rest) = s := by
   rw [List.append_assoc]
